@@ -357,6 +357,13 @@ def cases(draw, signed=None):
         room = 21 * 10**14 - sum(u["sat"] for u in utxos) - 546 * (nu - i - 1)
         sat = max(546, min(sat, room))
         txid = hashlib.sha256(draw(st.binary(min_size=4, max_size=4)) + bytes([i])).hexdigest()
+        shape = draw(st.sampled_from(["plain"] * 6 + ["lead0", "trail0", "palindrome"]))
+        if shape == "lead0":  # leading zero bytes in RPC (display) order, the usual look of a block-hash-like id
+            txid = "0000" + txid[4:]
+        elif shape == "trail0":
+            txid = txid[:-4] + "0000"
+        elif shape == "palindrome":  # byte order cannot be told apart: both orders must work anyway
+            txid = txid[:32] + "".join(reversed([txid[j : j + 2] for j in range(0, 32, 2)]))
         if utxos and (share == "same-tx" or (share == "mixed" and draw(st.booleans()))):
             txid = utxos[draw(st.integers(0, len(utxos) - 1))]["txid"]  # another output of an already listed transaction
         used = {u["vout"] for u in utxos if u["txid"] == txid}
